@@ -62,7 +62,17 @@ func (g *Gen) curMinDeposit(pricing string) int64 {
 	return m.Int64()
 }
 
-var discountPool = []string{"0.5", "0.1", "0.9", "0.25", "0.333333333333333333", "0.000000001", "0.999999999", "0.7"}
+var discountPool = []string{"0.5", "0.1", "0.9", "0.25", "0.333333333333333333", "0.000000001", "0.999999999", "0.7",
+	"0.499999999999999999", "0.500000000000000001", "0.999999999999999999", "0.333333333333333334", "0.000000000000000001"}
+
+// fmtTime: the same instant, sometimes written with a non-UTC offset (RFC 3339 allows it)
+func (g *Gen) fmtTime(t time.Time) string {
+	if g.chance(0.15) {
+		z := []int{8 * 3600, -5*3600 - 1800, 14 * 3600, -11 * 3600}[g.pick(4)]
+		return t.In(time.FixedZone("", z)).Format(time.RFC3339Nano)
+	}
+	return t.Format(time.RFC3339Nano)
+}
 
 func (g *Gen) genPricing() string {
 	price := pickStr(g, []string{"0stake", "0.5stake", "1stake", "1stake", "2stake", "3stake", "10stake", "10stake", "7stake", "1000stake", "1.9stake"})
@@ -90,8 +100,8 @@ func (g *Gen) genPricing() string {
 				dur = 1 // one-nanosecond window
 			}
 			end := start + dur
-			st := g.x.genesis.Add(time.Duration(start)).Format(time.RFC3339Nano)
-			et := g.x.genesis.Add(time.Duration(end)).Format(time.RFC3339Nano)
+			st := g.fmtTime(g.x.genesis.Add(time.Duration(start)))
+			et := g.fmtTime(g.x.genesis.Add(time.Duration(end)))
 			ws = append(ws, fmt.Sprintf(`{"start_time":"%s","end_time":"%s","discount":"%s"}`, st, et, pickStr(g, discountPool)))
 			g.addAnchor(start)
 			g.addAnchor(end)
@@ -120,6 +130,11 @@ func (g *Gen) genPricing() string {
 			if !g.chance(0.1) { // rarely: two promotions with the same threshold (legal)
 				v += uint64(1 + g.pick(3))
 			}
+		}
+		if len(vs) >= 3 && g.chance(0.08) {
+			// not in ascending order: the module must refuse such a pricing
+			vs[len(vs)-1], vs[len(vs)-2] = vs[len(vs)-2], vs[len(vs)-1]
+			g.x.stats.inc("boundary_unsorted_volume_promotions")
 		}
 		parts = append(parts, `"promotions_by_volume":[`+strings.Join(vs, ",")+`]`)
 	}
@@ -814,7 +829,7 @@ func (g *Gen) boundaryAct(st int) {
 	}
 	binds := g.allBindings()
 	g.x.stats.inc("boundary_msg")
-	switch g.pick(12) {
+	switch g.pick(14) {
 	case 0: // empty deposit on bind
 		g.submit(g.tx(st, MsgOp{T: "bind", Svc: svc, Prov: acctRef(st), Deposit: "", Pricing: `{"price":"1stake"}`, QoS: 1, Options: "{}"}), 0)
 	case 1: // maximal provider list, none bound
@@ -823,6 +838,28 @@ func (g *Gen) boundaryAct(st int) {
 			provs = append(provs, rawRef([]byte{byte(i + 1), 0x77}))
 		}
 		g.submit(g.tx(st, MsgOp{T: "call", Svc: svc, Providers: provs, Input: goodInput, FeeCap: "1stake", Timeout: 1}), 0)
+	case 12: // a one-shot or repeated call with timeout 0 or -1 (stateless validation must refuse it)
+		if len(binds) > 0 {
+			b := binds[g.pick(len(binds))]
+			g.submit(g.tx(st, MsgOp{T: "call", Svc: b.ServiceName, Providers: []string{refOfAddr(g, b.Provider)}, Input: goodInput, FeeCap: "2000stake", Timeout: int64(-g.pick(2)), Repeated: g.chance(0.3), Total: 2}), 0)
+		}
+	case 13: // hand-built coin lists holding a zero amount: fee cap of a call / of a context update, deposit of an update
+		ids := g.x.cur.CtxIDs()
+		switch {
+		case len(ids) > 0 && g.chance(0.5):
+			id := ids[g.pick(len(ids))]
+			if o := g.acctIndex(g.x.cur.Ctx[id].Consumer); o >= 0 {
+				g.submit(g.tx(o, MsgOp{T: "updctx", Ctx: g.ctxRefFor(id), FeeCap: "!0stake"}), 0)
+			}
+		case len(binds) > 0 && g.chance(0.5):
+			b := binds[g.pick(len(binds))]
+			g.submit(g.tx(st, MsgOp{T: "call", Svc: b.ServiceName, Providers: []string{refOfAddr(g, b.Provider)}, Input: goodInput, FeeCap: "!0stake", Timeout: 1}), 0)
+		case len(binds) > 0:
+			b := binds[g.pick(len(binds))]
+			if o := g.acctIndex(b.Owner); o >= 0 {
+				g.submit(g.tx(o, MsgOp{T: pickStr(g, []string{"update", "enable"}), Svc: b.ServiceName, Prov: refOfAddr(g, b.Provider), Deposit: "!0stake", Options: "{}"}), 0)
+			}
+		}
 	case 2: // maximal numeric fields
 		g.submit(g.tx(st, MsgOp{T: "call", Svc: svc, Providers: []string{acctRef(st)}, Input: goodInput, FeeCap: "1stake", Timeout: math.MaxInt64, Repeated: true, Freq: 0, Total: math.MaxInt64}), 0)
 	case 3: // huge qos
@@ -965,6 +1002,9 @@ func (g *Gen) burstAct() {
 		// give the consumer enough for some of them, not all
 		bal := g.x.cur.BalOf(acctAddr(consumer))
 		want := total/2 + int64(g.pick(int(total/2)+1))
+		if g.chance(0.3) {
+			want = total // exactly enough for all of them
+		}
 		if bal < want && g.chance(0.7) {
 			g.submit(g.tx(g.stranger, MsgOp{T: "send", To: acctRef(consumer), Amount: want - bal}), 0)
 		}
